@@ -30,7 +30,7 @@ CLAIMED = {
          "Every row of the original input must show the same figures under '-b SYM:n:c' and under a prepended Buy (n shares, total cost c, default affiliate, 400 days earlier); opening positions of absent symbols change nothing; malformed strings are rejected (library) and rejected before any file is opened (binary).",
          "Zero-share opening positions are compared with no purchase.", "DESIGN.md section 4 C16"),
  "C06": ("exploration", "property-based testing with exact re-summation of full-precision cells and a two-run (default vs full precision) differential",
-         "Yearly figures, table totals, aggregate years and 'Since inception' are recomputed exactly from the full-precision gain cells (by settlement year, error-free securities only); every money figure of the default rendering must equal the full-precision figure rounded half away from zero; the text front end must show every cell line as often as the tables have it; the stream CSV writer and the real --csv-output-dir files (also when written over a longer earlier run) must hold exactly the tables.",
+         "Yearly figures, table totals, aggregate years and 'Since inception' are recomputed exactly from the full-precision gain cells (by settlement year, error-free securities only); every money figure of the default rendering must equal the full-precision figure rounded half away from zero; the text front end must show every cell line as often as the tables have it; the stream CSV writer and the real --csv-output-dir files (also when written over a longer earlier run) must carry every record of every table as often as the tables have it.",
          "Figures are read from the render model (the web UI's source) with a tokenizer for $-amounts and '(x CUR)' amounts.", "DESIGN.md section 4 C06"),
  "C17": ("exploration", "property-based testing against an independent recomputation from the tool's own per-row ledger",
          "Total-costs and yearly-max tables are recomputed from the TxDeltas of the same run (default affiliate: day maximum, else closing cost of the most recent earlier day, else opening cost) and compared cell by cell; ties for a yearly maximum accept any tied day.",
